@@ -42,6 +42,7 @@ import Ymq.Lemmas.PolyMiddle
 import Ymq.Lemmas.PolyTree
 import Ymq.Lemmas.PolyRootsEval
 import Ymq.Lemmas.PolyBarrett
+import Ymq.Lemmas.PolyMont
 
 namespace Ymq.C10
 open Ymq.PolySpec
@@ -1018,5 +1019,114 @@ theorem roots_eval_zmod (n : Nat) (hn : 1 < n) (a b : List Nat) (ha1 : 1 ≤ a.l
 example : rootsEval (natOps 101) [1, 2, 3, 4, 5] [7, 9] = some [13, 54] := by decide
 
 end Trees
+
+/-! ## The production path: Montgomery `ZmodN` operations and the word-level NTT inside arith_poly -/
+
+section Production
+open Ymq.PolyMul Polynomial
+
+/-- **The Montgomery operations of `ZmodN` are an instance of the coefficient operations** of every
+arith_poly theorem above: `montOps n kw rinv` (`mul a b = a·b·R⁻¹ mod n`, `one = R mod n`,
+`inv a = a⁻¹·R² mod n`, `==` on residues; C07 proves that `ZmodN` computes these) maps to `ZMod n` by
+`mphi x = x·R⁻¹` as a ring homomorphic image with sound `inv` and sound and complete `==` (`HomC`),
+whenever `R·rinv ≡ 1 (mod n)`. So `karatsuba_spec`, `middlemul_spec`, `inv_mod_xn_spec`, `div_mod_xn_spec`,
+`product_tree_spec`, `from_roots_spec`, `multi_eval_spec`, `roots_eval_spec` hold verbatim for the
+operations the code runs, with values read out of their Montgomery forms. -/
+theorem mont_ops_hom (n kw rinv : Nat) (hn : 0 < n) (hR : 2 ^ (64 * kw) * rinv % n = 1 % n) :
+    HomC (montOps n kw rinv) (mphi n rinv) :=
+  montOps_homC n kw rinv hn hR
+
+/-- **The NTT branch of `_longmul` in the arith_poly models IS the word-level `convolve_modn_ntt`.** Under the
+Montgomery operations, for operands of reduced residues, a context built by the model of
+`MultiZmodP::new(zn, k)` (`k ≤ 31`, `n` of at most 512 bits) and `bitlen(deg p + deg q) ≤ k`, the list the
+model `fftLongmul` writes (exact product coefficients, zero beyond `2^logsize`) equals, entry by entry, the
+output of the word-level model of `convolve_modn_ntt(mzp, 2^logsize, p, q, z, 0)` — root tables,
+`from_mint`, bit-reversed scatter, `ntt_inplace`, `mul`, swap loop, inverse transform, `_crt`, `zn.redc`
+(`convolve_modn_ntt_spec`). This discharges the "exact convolution" assumption of the models at this call. -/
+theorem fft_longmul_refines (n k : Nat) (m : Ymq.Crt.Mzp) (hm : Ymq.Crt.new n k = some m) (hn : 0 < n)
+    (hbits : Ymq.Checked.bitlen n ≤ 512) (hk31 : k ≤ 31) (kw rinv zlen : Nat) (p q : List Nat)
+    (hp1 : 1 ≤ p.length) (hq1 : 1 ≤ q.length) (hpq : 3 ≤ p.length + q.length)
+    (hk : Ymq.Checked.bitlen (p.length - 1 + (q.length - 1)) ≤ k)
+    (hpn : ∀ v ∈ p, v < n) (hqn : ∀ v ∈ q, v < n) :
+    ∃ rts, Ymq.Crt.rootsPacked m = some rts ∧
+      Ymq.Crt.convolveNtt m rts rinv (2 ^ Ymq.Checked.bitlen (p.length - 1 + (q.length - 1)))
+        (p.map (Ymq.Limbs.ofNat 8)) (q.map (Ymq.Limbs.ofNat 8)) zlen 0 =
+      fftLongmul k (montOps n kw rinv) zlen p q :=
+  fftLongmul_refines n k m hm hn hbits hk31 kw rinv zlen p q hp1 hq1 hpq hk hpn hqn
+
+/-- **The NTT branch of `_middlemul` (`_fft_midmul`) in the arith_poly models IS the word-level
+`convolve_modn_ntt`** with `size = 2|q|`, `offset = |q| - 1` (`|q| = 2^e`, `e + 1 ≤ k`). -/
+theorem fft_midmul_refines (n k : Nat) (m : Ymq.Crt.Mzp) (hm : Ymq.Crt.new n k = some m) (hn : 0 < n)
+    (hbits : Ymq.Checked.bitlen n ≤ 512) (hk31 : k ≤ 31) (kw rinv zlen e : Nat) (p q : List Nat)
+    (hq : q.length = 2 ^ e) (hp : p.length = 2 * q.length - 1) (he : e + 1 ≤ k)
+    (hpn : ∀ v ∈ p, v < n) (hqn : ∀ v ∈ q, v < n) :
+    ∃ rts, Ymq.Crt.rootsPacked m = some rts ∧
+      Ymq.Crt.convolveNtt m rts rinv (2 * q.length) (p.map (Ymq.Limbs.ofNat 8)) (q.map (Ymq.Limbs.ofNat 8))
+        zlen (q.length - 1) = fftMidmul k (montOps n kw rinv) zlen p q :=
+  fftMidmul_refines n k m hm hn hbits hk31 kw rinv zlen e p q hq hp he hpn hqn
+
+/-- **`Poly::mul_fft` / the production branch of `_longmul`, end to end in one statement.** For the Montgomery
+operations, a ring context with NTT (`c.mzp = some k`, the `MultiZmodP` built by `new(zn, k)`), operands
+`p`, `q` of reduced residues with `|p| + |q| ≥ 3` and `bitlen(deg p + deg q) ≤ k ≤ 31`: the model of
+`Poly::mul_fft` reaches no panic site, its output is exactly the output of the word-level model of
+`convolve_modn_ntt`, and read out of Montgomery form it is the polynomial product:
+`mphi(z[i]) = (P·Q).coeff i` in `ZMod n`. -/
+theorem mul_fft_end_to_end (n k : Nat) (m : Ymq.Crt.Mzp) (hm : Ymq.Crt.new n k = some m) (hn : 0 < n)
+    (hbits : Ymq.Checked.bitlen n ≤ 512) (hk31 : k ≤ 31) (kw rinv : Nat)
+    (hR : 2 ^ (64 * kw) * rinv % n = 1 % n) (c : Ctx) (hc : c.mzp = some k) (p q : List Nat)
+    (hp1 : 1 ≤ p.length) (hq1 : 1 ≤ q.length) (hpq : 3 ≤ p.length + q.length)
+    (hk : Ymq.Checked.bitlen (p.length - 1 + (q.length - 1)) ≤ k)
+    (hpn : ∀ v ∈ p, v < n) (hqn : ∀ v ∈ q, v < n) :
+    ∃ rts z, Ymq.Crt.rootsPacked m = some rts ∧ mulFft c (montOps n kw rinv) p q = some z ∧
+      Ymq.Crt.convolveNtt m rts rinv (2 ^ Ymq.Checked.bitlen (p.length - 1 + (q.length - 1)))
+        (p.map (Ymq.Limbs.ofNat 8)) (q.map (Ymq.Limbs.ofNat 8)) (p.length + q.length - 1) 0 = some z ∧
+      z.length = p.length + q.length - 1 ∧
+      ∀ i, i < p.length + q.length - 1 →
+        mphi n rinv (z.getD i 0) = (poly (p.map (mphi n rinv)) * poly (q.map (mphi n rinv))).coeff i := by
+  obtain ⟨rts, e1, e2⟩ := fftLongmul_refines n k m hm hn hbits hk31 kw rinv (p.length + q.length - 1) p q hp1 hq1
+    hpq hk hpn hqn
+  have hlt := bitlen_lt (p.length - 1 + (q.length - 1))
+  obtain ⟨z, ez, lz, hz⟩ := fftLongmul_spec (montOps_homC n kw rinv hn hR).toHomE.toHom k
+    (p.length + q.length - 1) p q hp1 hq1 hpq (by
+      have : 2 ^ Ymq.Checked.bitlen (p.length - 1 + (q.length - 1)) ≤ 2 ^ k :=
+        Nat.pow_le_pow_right (by decide) hk
+      omega)
+  refine ⟨rts, z, e1, ?_, by rw [e2, ez], lz, hz⟩
+  unfold mulFft
+  rw [hc]
+  simp only
+  rw [if_neg (by omega)]
+  exact ez
+
+/-- **`_longmul`, production branch, end to end** (`USE_FFT && p.len() >= FFT_THRESHOLD && zr.mzp.is_some()`):
+as `mul_fft_end_to_end`, for any output length `zlen`. -/
+theorem longmul_ntt_end_to_end (n k : Nat) (m : Ymq.Crt.Mzp) (hm : Ymq.Crt.new n k = some m) (hn : 0 < n)
+    (hbits : Ymq.Checked.bitlen n ≤ 512) (hk31 : k ≤ 31) (kw rinv : Nat)
+    (hR : 2 ^ (64 * kw) * rinv % n = 1 % n) (c : Ctx) (hc : c.mzp = some k) (zlen tmplen : Nat)
+    (p q : List Nat) (hp28 : Ymq.Gen.Params.FFT_THRESHOLD ≤ p.length) (hq1 : 1 ≤ q.length)
+    (hk : Ymq.Checked.bitlen (p.length - 1 + (q.length - 1)) ≤ k)
+    (hpn : ∀ v ∈ p, v < n) (hqn : ∀ v ∈ q, v < n) :
+    ∃ rts z, Ymq.Crt.rootsPacked m = some rts ∧ longmul c (montOps n kw rinv) zlen tmplen p q = some z ∧
+      Ymq.Crt.convolveNtt m rts rinv (2 ^ Ymq.Checked.bitlen (p.length - 1 + (q.length - 1)))
+        (p.map (Ymq.Limbs.ofNat 8)) (q.map (Ymq.Limbs.ofNat 8)) zlen 0 = some z ∧ z.length = zlen ∧
+      ∀ i, i < zlen →
+        mphi n rinv (z.getD i 0) = (poly (p.map (mphi n rinv)) * poly (q.map (mphi n rinv))).coeff i := by
+  have h28 : 28 ≤ p.length := hp28
+  obtain ⟨rts, e1, e2⟩ := fftLongmul_refines n k m hm hn hbits hk31 kw rinv zlen p q (by omega) hq1 (by omega)
+    hk hpn hqn
+  have hlt := bitlen_lt (p.length - 1 + (q.length - 1))
+  obtain ⟨z, ez, lz, hz⟩ := fftLongmul_spec (montOps_homC n kw rinv hn hR).toHomE.toHom k zlen p q (by omega) hq1
+    (by omega) (by
+      have : 2 ^ Ymq.Checked.bitlen (p.length - 1 + (q.length - 1)) ≤ 2 ^ k :=
+        Nat.pow_le_pow_right (by decide) hk
+      omega)
+  refine ⟨rts, z, e1, ?_, by rw [e2, ez], lz, hz⟩
+  unfold longmul
+  rw [hc]
+  simp only
+  rw [if_pos hp28]
+  exact ez
+
+end Production
 
 end Ymq.C10
